@@ -122,7 +122,7 @@ impl Prop for Render {
         "one case = (type of nesting depth <= 4 over int/bool/void/string/array/tuple2-4/option/result, a value of it, one of 8 conversion spellings); the printed text must equal the recursive reference renderer; non-trivial = value depth >= 2 with >= 2 different container kinds; distinct by (type, value, spelling)"
     }
     fn n_cases(&self, tier: Tier) -> u32 {
-        tier.pick(8000, 80000)
+        tier.pick(6000, 60000)
     }
     fn strategy(&self, _tier: Tier, _f: &Findings) -> BoxedStrategy<Self::Case> {
         let one = (prop_oneof![1 => ty_strategy(1), 2 => ty_strategy(2), 3 => ty_strategy(3), 3 => ty_strategy(4)], 0u8..8)
